@@ -30,14 +30,17 @@ def run(ctx):
     ctx.assumptions = ["no reflink-capable filesystem: ioctl(FICLONE) is emulated by the supervisor",
                        "damage is applied between calls, never during one (concurrent mutation is C07)"]
     ctx.exhaustive = True
-    cache = ctx.new_cache()
-    destroot = ctx.new_dir("dest")
+    base = ctx.new_dir("base")        # cache and destinations on one file system (hard links!)
+    cache = os.path.join(base, "cache")
+    destroot = os.path.join(base, "dest")
+    os.makedirs(destroot)
     # a driver whose FICLONE ioctls are emulated (reflink paths past verification)
     fic = {}
 
     def ficlone_driver(variant):
         if variant not in fic:
-            w = sysm.argv([ctx.scratch], "/dev/null", ficlone=True, all_in_op=True, timeout=3600)
+            w = sysm.argv([ctx.scratch] + ([ctx.scratch2] if ctx.scratch2 else []), "/dev/null", ficlone=True,
+                          all_in_op=True, timeout=3600)
             fic[variant] = drv.Driver(variant, outdir=ctx.outdir, wrapper=w)
         return fic[variant]
 
